@@ -5,6 +5,7 @@
 // events: {"e":"lane","k":..,"a":[L],"b":[L],"r":[L],"r2":[L]}   {"e":"mat","k":..,"s":[..],"m":[..],"r":[..]}
 #include "goldilocks_base_field.hpp"
 #include "vh.hpp"
+#include <map>
 #include <fcntl.h>
 typedef Goldilocks::Element E;
 
@@ -141,18 +142,20 @@ static void do_mat(vh::Out &o, long long ci, const std::vector<std::string> &t)
     for (size_t i = 0; i < ns; i++)
         s[i] = vh::parse_u64(t[3 + i]);
     size_t nm = atoi(t[3 + ns].c_str());
-    // coefficient array: for the _a variants and for every other call of the others an exact-extent copy that ends at an
-    // inaccessible page (32-byte aligned start: nm*8 is a multiple of 32); otherwise a deliberately misaligned (8 mod 32) copy
-    std::vector<uint64_t> store(nm + 8);
+    // coefficient array: an exact-extent buffer that ends at an inaccessible page (32-byte aligned start: nm*8 is a multiple
+    // of 32) or a deliberately misaligned (8 mod 32) one; always for the _a variants the former.  Both are PERSISTENT
+    // (one per size, rewritten in place for every call) and consecutive calls use the same one twice in a row, so that
+    // anything a kernel remembers about "the matrix at this address" meets new contents at the old address.
+    static std::map<size_t, vh::GBuf> exact_bufs;
+    static std::vector<uint64_t> store(160);
     bool aligned = k.size() > 2 && k.substr(k.size() - 2) == "_a";
     uint64_t *base = store.data();
     while (((uintptr_t)base) % 32 != 0)
         base++;
-    bool exact = aligned || (ci % 2 == 0);
-    vh::GBuf gm;
-    if (exact)
-        gm = vh::galloc(nm, 0);
-    uint64_t *m = exact ? gm.p : base + 1;
+    bool exact = aligned || ((ci / 2) % 2 == 0);
+    if (exact && !exact_bufs.count(nm))
+        exact_bufs[nm] = vh::galloc(nm, 0);
+    uint64_t *m = exact ? exact_bufs[nm].p : base + 1;
     for (size_t i = 0; i < nm; i++)
         m[i] = vh::parse_u64(t[4 + ns + i]);
     alignas(64) uint64_t r[24] = {0};
@@ -219,8 +222,6 @@ static void do_mat(vh::Out &o, long long ci, const std::vector<std::string> &t)
     o.w64arr("m", m, nm);
     o.w64arr("r", r, nr);
     o.end();
-    if (exact)
-        vh::gfree(gm);
 }
 
 int main(int argc, char **argv)
